@@ -16,7 +16,7 @@ def run(run):
     if not L.build(run):
         return
     quick = run.tier == "quick"
-    fams = [("corpus:corpus/C11/duplicate-entry-names.jsonl", 0, 0), ("c11", 1500 if quick else 20000, run.seed),
+    fams = [("corpus:corpus/C11/duplicate-entry-names.jsonl", 0, 0), ("corpus:corpus/C11/membership-multiset.jsonl", 0, 0), ("c11", 1500 if quick else 20000, run.seed),
             ("c11dup", 12 if quick else 60, run.seed + 1),
             ("c10", 200 if quick else 2000, run.seed + 2)]
     results, cover, summary, scripts, traces = L.run_families(run, fams)
